@@ -36,10 +36,10 @@ theorem Good.of_put {s : St} (hg : Good s) {v low high φ0 φ1} (hv : v ≠ 0)
     (h0 : Valid s.nodes low φ0) (h1 : Valid s.nodes high φ1)
     (s0 : SuppGe φ0 (v + 1)) (s1 : SuppGe φ1 (v + 1)) (hreg : high.neg = false) (hne : low ≠ high)
     {s' i} (h : s.put ⟨v, low, high⟩ = .ok (s', i)) : Good s' := by
-  obtain ⟨hi, hsub, hcache, -, hcases, hi2, hnext, hfound, hwf', htinv', hnode1⟩ := put_spec hg _ h
+  obtain ⟨hi, hsub, hcache, -, hcases, hi2, hnext, hfound, hwf', htinv', hnode1, hrs'⟩ := put_spec hg _ h
   have t0 := topGe_of_supp hg.inv h0 s0
   have t1 := topGe_of_supp hg.inv h1 s1
-  refine ⟨hwf', htinv', ⟨?_, ?_, ?_, ?_, ?_, ?_⟩, ?_, ?_, by rw [hnode1]; exact hg.term1⟩
+  refine ⟨hwf', htinv', ⟨?_, ?_, ?_, ?_, ?_, ?_⟩, ?_, ?_, by rw [hnode1]; exact hg.term1, hrs'⟩
   · intro a b n ha hb
     rcases hcases _ _ ha with ha' | ⟨rfl, rfl⟩ <;> rcases hcases _ _ hb with hb' | ⟨rfl, hb2⟩
     · exact hg.inv.uniq _ _ _ ha' hb'
